@@ -107,9 +107,43 @@ def _menu():
     m['ra_where'] = lambda: ((lambda a: ra.where(a > 1)), (A(),), {})
     m['rotamers'] = lambda: (rotamer._rotamers, (np.array([10.0, 170.0, 200.0, 350.0, 5.0]), [0, 180, 360]), {'buffer_width': 15})
     m['transitions'] = lambda: (disorder.transitions, (np.array([[0, 1, 1], [2, 2, 2]]),), {})
+    # zero rows / never-visited states (masked divisions), float counts
+    Cz = lambda: np.array([[1, 1, 0, 0], [0, 0, 0, 0], [1, 0, 2, 0], [0, 0, 0, 0]])
+    m['builder_normalize_zero_rows'] = lambda: (builders.normalize, (Cz(),), {'calculate_eq_probs': False})
+    m['builder_transpose_zero_rows'] = lambda: (builders.transpose, (Cz(),), {})
+    m['builder_normalize_zero_rows_csr'] = lambda: (builders.normalize, (sp.csr_matrix(Cz().astype(float)),), {'calculate_eq_probs': False})
+    m['trim_inplace'] = lambda: (tm.trim_disconnected, (np.array([[2, 1, 0], [1, 2, 0], [0, 1, 5]]),), {'renumber_states': False})
+    # index arrays (with negative entries) are arguments too
+    m['ra_getitem_index_arrays'] = lambda: ((lambda a, r, c: a[(r, c)]), (A(), np.array([-1, 0]), np.array([0, -1])), {})
+    m['ra_getitem_0d_index'] = lambda: ((lambda a, r, c: a[(r, c)]), (A(), np.array(-1), np.array(-1)), {})
+    m['ra_setitem_index_arrays'] = lambda: (_ra_set, (np.array([-1, 0]), np.array([0, -2])), {})
+    m['ra_getitem_rowarray'] = lambda: ((lambda a, r: a[r]), (A(), np.array([-1, 0])), {})
+    m['partition_indices_ndarray'] = lambda: (ra.partition_indices, (np.array([4, 0, 2]), [2, 3]), {})
+    m['cluster_partition'] = lambda: ((lambda r, L: r.partition(L)), (cu.ClusterResult(center_indices=np.array([3, 0]), distances=np.arange(5.0),
+                                                                                         assignments=np.array([0, 0, 1, 1, 1]), centers=[1, 2]), [2, 3]), {})
+    m['reactive_populations_given'] = lambda: (tpt.reactive_populations, (np.asfortranarray(T()), [0], [2]), {'populations': np.array([0.25, 0.5, 0.25])})
+    # sparse matrices with >= 1000 states take the ARPACK path
+    m['eigenspectrum_sparse_1000'] = lambda: (tm.eigenspectrum, (_big_sparse(),), {'n_eigs': 3})
+    m['eq_probs_sparse_1000'] = lambda: (tm.eq_probs, (_big_sparse(),), {})
     m['ra_save_load'] = _save_load
     m['load_as_concatenated'] = _bulk_load
     return m
+
+
+def _ra_set(r, c):
+    from enspara import ra
+    a = ra.RaggedArray([np.array([1, 2, 3]), np.array([4, 5])])
+    a[(r, c)] = 9
+    return a
+
+
+def _big_sparse():
+    import scipy.sparse as sp
+    from .c16 import big_chain
+    return sp.csr_matrix(big_chain(1000, 0.25, 0.5))
+
+
+HEAVY = ('eigenspectrum_sparse_1000', 'eq_probs_sparse_1000')
 
 
 def _save_load():
@@ -449,7 +483,10 @@ def _menu_names():
     return MENU_NAMES
 
 
-MENU_NAMES = ['shannon_entropy_zero', 'shannon_entropy_2d_zero', 'shannon_entropy_pos', 'kl', 'js', 'mutual_information',
+MENU_NAMES = ['builder_normalize_zero_rows', 'builder_transpose_zero_rows', 'builder_normalize_zero_rows_csr', 'trim_inplace',
+              'ra_getitem_index_arrays', 'ra_getitem_0d_index', 'ra_setitem_index_arrays', 'ra_getitem_rowarray',
+              'partition_indices_ndarray', 'cluster_partition', 'reactive_populations_given', 'eigenspectrum_sparse_1000',
+              'eq_probs_sparse_1000', 'shannon_entropy_zero', 'shannon_entropy_2d_zero', 'shannon_entropy_pos', 'kl', 'js', 'mutual_information',
               'mutual_information_zero_block', 'joint_counts', 'weighted_mi', 'mi_matrix', 'ccn', 'builder_normalize',
               'builder_normalize_csr_prior', 'builder_transpose', 'builder_transpose_csr_prior', 'builder_mle',
               'builder_mle_csr_prior', 'assigns_to_counts', 'trim_disconnected', 'eigenspectrum', 'eq_probs_csr', 'committors',
@@ -467,6 +504,8 @@ def run_shard(sh, ctx):
     if kind == 'pairs':
         first = names[i]
         for wi, second in enumerate(names):
+            if (first in HEAVY or second in HEAVY) and first != second and not (second in HEAVY and wi % 9 == i % 9):
+                continue        # the two ~1 s routines: repeated after themselves and after every 9th routine only
             # every ordered pair under two words (rotating through the alphabet) + the zero word
             for word in {'zero', words[(i + wi) % len(words)], words[(i + 2 * wi + 3) % len(words)]}:
                 check_history({'kind': 'history', 'history': [first, second], 'word': word, 'threads': [1, 'def']}, ctx)
@@ -480,6 +519,8 @@ def run_shard(sh, ctx):
             for order in ('def', 'rev'):
                 ctx.guard('thread_settings')
                 for nm in names:
+                    if nm in HEAVY and order == 'rev':
+                        continue
                     for word in ('zero', 'nan'):
                         check_history({'kind': 'history', 'history': [nm], 'word': word, 'threads': [T, order]}, ctx)
         ctx.sample({'kind': 'history', 'history': ['kcenters'], 'word': 'nan', 'threads': [3, 'rev']})
